@@ -295,7 +295,12 @@ def r4_csv(ctx):
         v = pf[0].value
         det = ast.unparse(v)
         d = {k: ast.unparse(x) for k, dd in defs.items() for _, x in dd if isinstance(x, ast.AST)}
-        # canonical comparison form:  required <= measured
+        # canonical comparison form:  required <= measured; canonical polarity: `A if rsnr_min == '' else B`
+        mn = next((k for k, x in d.items() if x == f"{vv}['SNR-0.1nm (min)']"), None)
+        if ast.unparse(v.test) == f"{mn} == ''":
+            v = ast.IfExp(test=v.test, body=v.orelse, orelse=v.body)
+        elif ast.unparse(v.test) != f"{mn} != ''":
+            v = ast.IfExp(test=v.test, body=ast.Constant(value=0), orelse=ast.Constant(value=0))
         ok = isinstance(v.body, ast.Compare) and isinstance(v.body.ops[0], ast.LtE) and isinstance(v.orelse, ast.Compare) and \
             isinstance(v.orelse.ops[0], ast.LtE) and \
             d.get(ast.unparse(v.body.comparators[0])) == f"{vv}['SNR-0.1nm (min)']" and \
